@@ -87,6 +87,17 @@ class Interp:
             if isinstance(new, VMap) and isinstance(v.content, VMap) and v.content.on_key and not new.on_key:
                 new.on_key = v.content.on_key
             v.content = new
+            parent = getattr(v, 'parent', None)
+            if parent is not None:
+                # a view handed out by dict.setdefault: write the change through to the dict it belongs to
+                pcell, key = parent
+                pc = self.content(pcell)
+                o = self.lib._map_opt(pc)
+                try:
+                    nt = z3.Store(pc.t, pc.kty.encode(key), o.some(pc.vty.encode(new)))
+                except EncodeError as e:
+                    raise Unsupported('write-through of a dict view: %s' % e)
+                self.set_content(pcell, VMap(nt, pc.kty, pc.vty))
         elif isinstance(v, VFieldCell):
             self.ctx.write_field(v.ref.t, v.field, new)
         else:
